@@ -360,3 +360,35 @@ def unchanged(root, before, what, rep, extra=None):
                            **(extra or {})), True)
         return False
     return True
+
+
+def second_hand(root, rs):
+    """make `root` a USED object without changing what it denotes: its array-valued parameters (sum weights, Chow-Liu
+    tables) are overwritten IN PLACE with other values, every kind of query is run once, and the parameters are written
+    back in place.  A correct library answers later queries from the parameters it holds now."""
+    from deeprob.spn.algorithms.inference import likelihood, log_likelihood, mpe
+    from deeprob.spn.algorithms.sampling import sample
+    objs = post_order(root)
+    saved = []
+    for o in objs:
+        if isinstance(o, Sum) and isinstance(o.weights, np.ndarray) and len(o.weights) > 1:
+            saved.append((o.weights, o.weights.copy())); o.weights[:] = np.roll(o.weights, 1)
+        elif isinstance(o, BinaryCLT) and isinstance(getattr(o, "params", None), np.ndarray):
+            saved.append((o.params, o.params.copy()))
+            r = int(np.argmax(np.asarray(o.tree) == -1))
+            for i in range(len(o.tree)):
+                if i != r:
+                    o.params[i] = o.params[i][::-1].copy()          # swap the two parent rows: still normalised
+    if not saved:
+        return False
+    width = max(int(v) for v in root.scope) + 1
+    x = np.full((3, width), np.nan, dtype=np.float32)
+    try:
+        with np.errstate(all="ignore"):
+            log_likelihood(root, x); likelihood(root, x)
+            mpe(root, x); sample(root, x)
+            log_likelihood(root, x, n_jobs=2); mpe(root, x, n_jobs=2)
+    finally:
+        for arr, old in saved:
+            arr[...] = old
+    return True
